@@ -119,7 +119,7 @@ pub fn run(a: &Args) {
                 class: format!("disc:{}:{}", if malformed && k > 0 { "malformed" } else { "wellformed" }, if reply.iter().any(|w| w.address.as_ref().is_some_and(|a| a.hostname.contains(':'))) { "v6" } else { "v4" }) });
         } else {
             let k = rng.below(5) as usize;
-            let cands: Vec<Target> = (0..k).map(|i| Target { identifier: format!("c-{i}"), address: SocketAddr::new(rng.pick(IPS).parse().unwrap(), *rng.pick(&[0u16, 1, 25565, 65535])), meta: gen_md(&mut rng, false).into_iter().collect() }).collect();
+            let cands: Vec<Target> = (0..k).map(|i| Target { identifier: format!("c-{}", if rng.chance(1, 4) { 0 } else { i }), address: SocketAddr::new(rng.pick(IPS).parse().unwrap(), *rng.pick(&[0u16, 1, 25565, 65535])), meta: gen_md(&mut rng, false).into_iter().collect() }).collect();
             let client = SocketAddr::new(rng.pick(IPS).parse().unwrap(), *rng.pick(&[0u16, 40000, 65535]));
             // whatever text the client put into its handshake, verbatim: trailing dots, case, spaces, markers after a NUL
             let server = (rng.pick(&["mc.example.org", "", "ünï", "10.0.0.1", "play.example.org.", "eu.play.example.org..", ".", "Play.Example.ORG", " padded ", "mc.example.org\u{0}FML3\u{0}", "[2001:db8::1]", "xn--nxasmq6b.example"]).to_string(), *rng.pick(&[0u16, 25565, 65535]));
@@ -132,7 +132,7 @@ pub fn run(a: &Args) {
             let pick = if k > 0 { rng.below(k as u64) as usize } else { 0 };
             let custom = match mode {
                 1 => Some(None),
-                2 => Some(Some(pb::Target { identifier: "x".into(), address: if rng.chance(1, 3) { None } else { Some(pb::Address { hostname: if rng.chance(1, 2) { rng.pick(BAD_HOSTS).to_string() } else { rng.pick(IPS).to_string() }, port: *rng.pick(&[25565u32, 65536, 65535]) }) }, meta: vec![] })),
+                2 => Some(Some(pb::Target { identifier: if k > 0 && rng.chance(1, 2) { cands[pick].identifier.clone() } else { "x".into() }, address: if rng.chance(1, 3) { None } else { Some(pb::Address { hostname: if rng.chance(1, 2) { rng.pick(BAD_HOSTS).to_string() } else { rng.pick(IPS).to_string() }, port: *rng.pick(&[25565u32, 65536, 65535]) }) }, meta: vec![] })),
                 _ => None,
             };
             // for "echo" the reply is built from the candidate by the harness's own conversion
@@ -157,7 +157,11 @@ pub fn run(a: &Args) {
                 (0, other) => why.push(format!("the chosen candidate (address {}) did not come back: {:?}", cands[pick].address, other.as_ref().map(|o| o.as_ref().map(|t| t.identifier.clone())).map_err(|e| e.to_string()))),
                 (1, Ok(None)) => {}
                 (1, other) => why.push(format!("empty reply not returned as none: {:?}", other.is_ok())),
-                (2, r) => { let w = reply.clone().flatten().unwrap(); let valid = w.address.as_ref().is_some_and(|a| a.hostname.parse::<IpAddr>().is_ok() && a.port <= 65535); if valid != r.is_ok() { why.push(format!("reply with address {:?}: accepted={} although valid={}", w.address.map(|a| (a.hostname, a.port)), r.is_ok(), valid)); } }
+                (2, r) => { let w = reply.clone().flatten().unwrap(); let valid = w.address.as_ref().is_some_and(|a| a.hostname.parse::<IpAddr>().is_ok() && a.port <= 65535); if valid != r.is_ok() { why.push(format!("reply with address {:?}: accepted={} although valid={}", w.address.clone().map(|a| (a.hostname, a.port)), r.is_ok(), valid)); }
+                    // whatever well-formed target the service names is the one returned: identifier, address and metadata as replied
+                    if valid { let ad = w.address.as_ref().unwrap(); let want = SocketAddr::new(ad.hostname.parse().unwrap(), ad.port as u16);
+                        match r { Ok(Some(t)) => if t.identifier != w.identifier || t.address != want || !t.meta.is_empty() { why.push(format!("the service named {}@{want} and {}@{} came back", w.identifier, t.identifier, t.address)); },
+                                  Ok(None) => why.push("a well-formed reply came back as none".into()), Err(_) => {} } } }
                 (_, Ok(_)) => why.push("service error not reported".into()),
                 (_, Err(_)) => {}
             }
